@@ -57,6 +57,7 @@ class Case:
         self.uf, self.ug, self.search, self.dcs, self.dots, self.cb, self.upd = [], [], [], [], {}, [], []
         self.scaler = None
         self.ft = self.gt = None
+        self.sten, self.fdest = [], []
 
     def v(self, a):
         a = np.ascontiguousarray(np.asarray(a, dtype=np.float64)).ravel()
@@ -132,7 +133,26 @@ def record(kw, opts=None):
         return v
 
     kw2 = dict(kw)
-    kw2["fun"], kw2["jac"] = F, G
+    fd = not callable(kw.get("jac"))
+    kw2["fun"], kw2["jac"] = F, (kw.get("jac") if fd else G)
+    import lbfgsb.scalar_function as SFM
+    o_ad = SFM.approx_derivative
+
+    def ad(fun, x0, f0=None, **opts):
+        n0 = len(C.uf)
+        try:
+            gest = o_ad(fun, x0, f0=f0, **opts)
+        finally:
+            # the stencil points visited (when the objective raises at one of them the list ends there)
+            pts = [k for k, _ in C.uf[n0:]]
+            C.sten.append((C.v(x0), "[" + "; ".join(pts) + "]"))
+        # the estimate the wrapper keeps: derivative of a variable fixed by lb == ub reported as 0
+        lb_, ub_ = opts["bounds"]
+        gk = np.array(gest, dtype=float, copy=True)
+        gk[np.broadcast_to(np.equal(lb_, ub_), gk.shape)] = 0.0
+        C.fdest.append(((C.v(x0), cf(f0)), ("ok", gk)))
+        return gest
+    SFM.approx_derivative = ad
     if kw.get("callback") is not None:
         ucb = kw["callback"]
 
@@ -257,6 +277,8 @@ def record(kw, opts=None):
             C.exc_obj = e
     finally:
         M.get_cauchy_point, M.subspace_minimization, M.line_search, BM.is_update_X_and_G, DC.DCSRCH = o_cp, o_sub, o_ls, o_is, o_D
+        SFM.approx_derivative = o_ad
+    C.fd = fd
     return C, outcome
 
 
@@ -284,12 +306,15 @@ def render(name, C, kw, outcome, ckpt=None):
     dots = "[" + "; ".join(f"(({a}, {b_}), {cf(v)})" for (a, b_), v in C.dots.items()) + "]"
     cbs = "[" + "; ".join(f"({cz(k)}, {C.res(r, str)})" for k, r in C.cb) + "]"
     upds = "[" + "; ".join(f"(({k[0]}, {k[1]}), {C.res(r, str)})" for k, r in C.upd) + "]"
-    user = ("(mkuser (mk_uf %s) (mk_ug %s) %s %s %s %s %s false (fun _ => []) (fun _ _ _ => miss))" % (
+    stens = "[" + "; ".join(f"({k}, {v})" for k, v in C.sten) + "]"
+    fdes = "[" + "; ".join(f"(({k[0]}, {k[1]}), {C.res(r, C.v)})" for k, r in C.fdest) + "]"
+    fdpart = f"true (mk_sten {stens}) (mk_fdest {fdes})" if getattr(C, "fd", False) else "false (fun _ => []) (fun _ _ _ => miss)"
+    user = "(mkuser (mk_uf %s) (mk_ug %s) %s %s %s %s %s " % (
         ufs, ugs,
         f"(Some (mk_cb {cbs}))" if kw.get("callback") is not None else "None",
         f"(Some (mk_upd {upds}))" if kw.get("update_fun_def") is not None else "None",
         ("(Some (fun _ _ _ _ => %s))" % (C.res(C.scaler, cf) if C.scaler else "miss")) if kw.get("gradient_scaler") is not None else "None",
-        C.res(C.ft, cf) if C.ft else "miss", C.res(C.gt, cf) if C.gt else "miss"))
+        C.res(C.ft, cf) if C.ft else "miss", C.res(C.gt, cf) if C.gt else "miss") + fdpart + ")"
     kern = f"(mkkern (mk_search {srch}) (mk_dcs [{'; '.join(C.dcs)}]) (mk_dot {dots}))"
     # vector definitions are complete only now (rendering above may have added some)
     body = list(C.vdefs)
@@ -375,6 +400,8 @@ def make_kw(desc):
     kw = dict(x0=P.x0.copy(), fun=P.f, jac=P.g, bounds=P.bounds)
     kw.update(desc["cfg"])
     o = desc.get("opts", {})
+    if o.get("fd"):
+        kw["jac"] = None if o["fd"] == "None" else o["fd"]
     fs = float(P.f(np.clip(P.x0, P.lb, P.ub)))
     if o.get("ft") == "mid":
         kw["ftarget"] = fs - 0.3 * abs(fs) - 0.05
@@ -490,6 +517,13 @@ def gen_descs(tier, rng, focus=None):
             if focus == "fault":
                 opts["ft"] = str(rng.choice(["none", "none", "callable"]))
                 cfg.update(maxiter=int(rng.integers(3, 30)), maxfun=int(rng.integers(10, 80)))
+        if focus == "fd" or (focus is None and rng.random() < 0.12):
+            opts["fd"] = str(rng.choice(["2-point", "3-point", "None"]))
+            opts.pop("upd", None)
+            if opts.get("fault") and opts["fault"][0] == "g":
+                opts["fault"][0] = "f"
+            cfg.update(maxiter=min(cfg["maxiter"], 8))
+            spec["nmax"] = 5
         restart = int(rng.integers(1, 5)) if (rng.random() < 0.25 or focus == "restart") else 0
         d = dict(spec=spec, cfg=cfg, opts=opts, restart=restart, red=int(rng.integers(0, 3)))
         if restart and rng.random() < 0.08:
